@@ -834,6 +834,14 @@ func main() {
 				return
 			}
 		}
+		if rf.Oracle == "no-deadlock" && strings.Contains(rf.Message, " select)") {
+			// a task parked in a rewritten select statement: cases whose partner is parked in the
+			// hand-off table of an unbuffered channel are invisible to the real select, so this
+			// deadlock may be the simulator's
+			fmt.Printf("deadlock involving a select statement (%s): the simulator does not model select exactly; cannot decide\n", path)
+			inconclusive++
+			return
+		}
 		violations++
 		fmt.Printf("VIOLATION property=%s replay=%s\n", id, path)
 		fmt.Printf("  oracle=%s class=%s\n  %s\n", rf.Oracle, rf.Class, strings.ReplaceAll(rf.Message, "\n", "\n  "))
